@@ -10,6 +10,54 @@ NOTE = ("Trusted: Lean 4.33 kernel; axioms propext/Classical.choice/Quot.sound o
         "tolerances; CPython/numpy/pint/scipy. Modelled rather than verified: the Python code itself.")
 
 CHECKS = {
+    "C01": {
+        "engine": "sched",
+        "text": ("Lean theorems over the scheduler model: walk_eq_need (the time checked by _find_dependencies equals the "
+                 "semantic requirement of the data path for every adapter chain), updateRec_sound (whatever "
+                 "_update_recursive updates is an unfinished time component whose inputs, also through pull-based "
+                 "components, can be served for its announced pull time — every graph, state, fuel), need_sufficient / "
+                 "need_necessary (the requirement is exactly what the range check of the answering element demands). "
+                 "Tied to schedule.py / adapters by a differential correspondence of the update sequence of real "
+                 "Composition.run against the model's run loop, plus an implementation-only oracle (no failing pulls). "
+                 "Partial: the run-level composition 'every pull of every reachable state succeeds' additionally rests on "
+                 "the lower-bound/eviction theorems of C09/C11 and is carried by the oracle; two known findings "
+                 "(integration-zero-length-repeat, pull-fanout-eviction) are recorded."),
+        "design_ref": "5/C01",
+        "technique": "Lean 4 proof (mutual induction over the dependency walk; induction over adapter chains) + model/implementation correspondence",
+    },
+    "C02": {
+        "engine": "sched",
+        "text": ("walk_eq_need (assumed time = required time, chained delays add up), select_least and the exact "
+                 "tie-break are part of the model whose update sequence is diffed against real runs; the oracle "
+                 "checks on the implementation trace that every update is of a least-advanced component or of one "
+                 "upstream of it along dependencies that actually lag w.r.t. the observed requests."),
+        "design_ref": "5/C02",
+        "technique": "Lean 4 proof (induction over adapter chains and the dependency walk) + model/implementation correspondence",
+    },
+    "C03": {
+        "engine": "sched",
+        "text": ("Lean theorems: the dependency walk never runs out of fuel (#components + 1), the run loop ends only "
+                 "when no time component is running (final_times), it continues exactly while something is running, "
+                 "an update moves exactly the updated component strictly forward, the call order issued by Composition "
+                 "projects to initialize connect+ validate update* finalize per component and passes every status "
+                 "check ending FINALIZED, adapters collected into a set are finalized exactly once. Partial: the bound "
+                 "on the number of updates (termination of the outer loop) is validated by the correspondence and the "
+                 "oracle, not yet proved. Tied to schedule.py / sdk/component.py by the update-sequence correspondence "
+                 "and a life-cycle oracle on real runs."),
+        "design_ref": "5/C03",
+        "technique": "Lean 4 proof (induction over the run loop; finite status automaton) + model/implementation correspondence",
+    },
+    "C04": {
+        "engine": "sched",
+        "text": ("Lean theorems: updateRec_fuel_enough (no unbounded recursion for any graph), circular_sound (a reported "
+                 "cycle is a genuine reachable cycle of lagging dependencies, through pull-based components too), "
+                 "lagging_never_updated (no silently wrong schedule), no_lag_cycle_of_delay_sum_partial (ring algebra: "
+                 "accumulated delay >= sum of steps leaves no lag cycle, any placement/split, with the start clamp). "
+                 "Tied to schedule.py by the correspondence on rings (outcome class, update sequence) and the oracle "
+                 "(unresolved => circular-coupling error; resolved => completes). The connect-phase stall is C06's."),
+        "design_ref": "5/C04",
+        "technique": "Lean 4 proof (pigeonhole on the chain; induction over the walk; linear arithmetic over cyclic lists) + model/implementation correspondence",
+    },
     "C08": {
         "engine": "link",
         "text": ("Lean theorems over the link model (served entry is a nearest publication; exactly the requests in "
@@ -215,6 +263,8 @@ def main():
             "add_only": True,
         },
         "engines": [
+            {"name": "sched", "path": "harness/engines/sched_common.py", "serves_properties": sorted(k for k, v in CHECKS.items() if v["engine"] == "sched"),
+             "kind_free_text": "real Composition runs built from JSON specs (harness components, real adapters), diffed against the Lean run loop"},
             {"name": "link", "path": "harness/engines", "serves_properties": sorted(k for k, v in CHECKS.items() if v["engine"] == "link"),
              "kind_free_text": "real Output/Input/adapter objects driven event by event, diffed against the Lean driver"},
             {"name": "validate", "path": "harness/engines", "serves_properties": sorted(k for k, v in CHECKS.items() if v["engine"] == "validate"),
